@@ -120,12 +120,14 @@ func MergeInto(selector Selector, sourceBuilderName string, underPath string, ex
 }
 
 func composeBuilderForType(schemas ast.Schemas, builders ast.Builders, config CompositionConfig, typeDiscriminator string, sourceBuilder ast.Builder, composableBuilders ast.Builders) (ast.Builders, error) {
+	// the constructor and properties are copied: each composed builder appends to them, they can't be
+	// shared with the source builder (or between composed builders).
 	newBuilder := ast.Builder{
 		Package:     composableBuilders[0].Package,
 		For:         sourceBuilder.For,
 		Name:        sourceBuilder.For.Name,
-		Constructor: sourceBuilder.Constructor,
-		Properties:  sourceBuilder.Properties,
+		Constructor: sourceBuilder.Constructor.DeepCopy(),
+		Properties:  append([]ast.StructField(nil), sourceBuilder.Properties...),
 	}
 	if config.ComposedBuilderName != "" {
 		newBuilder.Name = config.ComposedBuilderName
